@@ -1142,6 +1142,8 @@ class Verifier(Interp):
                 env["ENUM"] = self.last_enum
             return self.spec_eval(lambda: FAnd([self.formula(c) for c in inv.invariant],
                                                [str(i) for i in range(len(inv.invariant))]), env)
+        for i_, e_ in enumerate(getattr(inv, "entry_ensures", ())):
+            self.prove("%s.entry.%d" % (name, i_), self.spec_eval(lambda: self.formula(e_), {}), meta={"kind": "loop-init"})
         saved_calls, self.st.calls = self.st.calls, []
         self.prove(name + ".init", inv_formula(zint(0)), meta={"kind": "loop-init"})
         self.st.calls = saved_calls
